@@ -386,6 +386,9 @@ def mon_c13(script, res):
                 mood_low = True
         if k == 'life':
             mood_low = False
+        if k == 'endacts':
+            for r_ in open_reqs.values():
+                r_['late'] = True         # still unanswered when the pass's requests were done
         if k in ('ans', 'ansall', 'endacts'):
             refused = None
         if refused is not None and k in ('kill', 'fork', 'state'):
@@ -487,6 +490,12 @@ def mon_c13(script, res):
             c_ = script['procs'][r['i']]
             if code == 500:
                 return '%sProcess(p%d) was answered with an HTTP error instead of a value or a fault' % (r['kind'], r['i'])
+            if r['kind'] == 'start' and not r.get('low') and c_.get('cmd', 0) in (0, 5) and code in (20, 21):
+                return ('startProcess(p%d) answered fault %d (no such file / not executable) for a command that exists and can '
+                        'be executed%s' % (r['i'], code, ' (a relative path with a slash is used as given)' if c_.get('cmd') == 5 else ''))
+            if r['kind'] in ('start', 'stop') and r['arg'] == 0 and r.get('late'):
+                return ('%sProcess(p%d, wait=false) was not answered at once: the answer came after the main loop had run '
+                        'again, as if wait were true' % (r['kind'], r['i']))
             if r['kind'] == 'start' and not r.get('low') and c_.get('cmd', 0) in (1, 2, 3, 4):
                 want = 20 if c_['cmd'] == 1 else 21
                 if code != want or r['forked']:
@@ -1078,6 +1087,32 @@ def dynamic_script(rng, U=2):
         t += rng.choice([1, 2, 4])
         req += 1
         ops.append({'now': t, 'acts': [['addgroup', g, req]]})
+        t += 2
+        ops.append({'now': t, 'acts': []})
+    # a group is stopped and removed at run time; the children of the other groups go on living, exit and must still
+    # be attributed (removal must not disturb the pid table entries of other groups, equal priorities included)
+    if rng.random() < 0.5 and ng >= 2:
+        g = rng.randrange(ng)
+        t += 2
+        req += 1
+        ops.append({'now': t, 'acts': [['rpc', 500 + req, 'stopgroup', g, 1]], 'killq': []})
+        t += 2
+        ops.append({'now': t, 'acts': [['poll']]})
+        t += 1
+        req += 1
+        ops.append({'now': t, 'acts': [['removegroup', g, 600 + req]]})
+        for _ in range(rng.choice([1, 2, 3])):
+            t += 2
+            ops.append({'now': t, 'acts': [['exit', rng.randrange(4), rng.choice([0, 1])]]})
+        t += 2
+        ops.append({'now': t, 'acts': []})
+    if rng.random() < 0.4:
+        # the configuration is read again (reloadConfig) while children are alive: they must stay tracked
+        t += 1
+        req += 1
+        ops.append({'now': t, 'acts': [['reread', 700 + req], ['exit', rng.randrange(4), 0]]})
+        t += 2
+        ops.append({'now': t, 'acts': [['exit', rng.randrange(4), 1]]})
         t += 2
         ops.append({'now': t, 'acts': []})
     t += 4
